@@ -93,6 +93,16 @@ def nested(rng):
             "function main() -> void { } // trailing comment, no newline", "//", "// only a comment", "function main() -> void { echo(1); } //",
             "function main() -> void { echo(\"unterminated", "function main() -> void { echo('c", "function main() -> void { echo(1.", "function main() -> void { echo(1); } /",
             "function main() -> void { } \n// last line\n// and another without newline",
+            # long inputs at bracket depth 1: operator chains, a type that doubles at every access, array dimensions
+            "function main() -> void { bit x = 1b; x = " + "~" * 13000 + "x; }",
+            "function main() -> void { int x = 1" + "+1" * 13000 + "; }",
+            "function main() -> void { int x = 0; x = " + "x = " * 13000 + "1; }",
+            "function main() -> void { boolean b = " + "!" * 9000 + "true; }",
+            "function main() -> void { int x = " + "-" * 700 + "1; }",
+            "class Pair<A, B> { public constructor() -> Pair<A, B> { } }\nclass P<T> { public P<Pair<T, T>> f; public constructor() -> P<T> { } }\n"
+            "function g(P<Object> p) -> void { echo(p" + ".f" * 40 + " == null); }\nfunction main() -> void { }",
+            "function main() -> void { int" + "[]" * 20000 + " a; }",
+            "function main() -> void { int" + "[]" * 7 + " a; }",
             # type-parameter bounds that refer to parameters: to themselves, to each other, to a later one
             "class P { public constructor() -> P { } }\nclass H<T extends T> { public T item = new P(); public constructor() -> H<T> { } }\nfunction main() -> void { }",
             "class P { public constructor() -> P { } }\nclass H<T extends T> { public constructor() -> H<T> { } public function put(T x) -> void { } "
